@@ -381,7 +381,7 @@ def lexer(s: str, g=PVLGrammar(), d=PVLDecoder()):
                 " is not allowed by the grammar.",
                 s,
                 i,
-                lexeme,
+                lexeme + char,
             )
 
         prev_char = _prev_char(s, i)
